@@ -3,6 +3,8 @@ import MpireModel.Model.Worker
 import MpireModel.Proofs.Watch
 import MpireModel.Model.KillSignal
 import MpireModel.Proofs.KillSignal
+import MpireModel.Model.TimeoutScan
+import MpireModel.Proofs.TimeoutScan
 /-!
 # C08 — timeouts fire iff exceeded, and promptly (watch logic over a discrete clock; real signal latency not modelled)
 -/
@@ -59,5 +61,59 @@ theorem blocked_worker_is_stopped (w : Mpire.Kill.W) (h : Mpire.Kill.Reachable w
   Mpire.Proofs.Kill.blocked_worker_is_stopped w h hi hr
 
 example : timedOut (some 10) 12 3 = false ∧ timedOut (some 10) 13 3 = true := by decide
+
+/-! ## One round of the timeout handler over all workers (`Mpire.TimeoutScan`) -/
+section Round
+open Mpire.TimeoutScan
+
+/-- "Independent of how many workers are blocked", apply half: in a round in which nothing overruns that ends the call
+(no map-family job, worker_init or worker_exit), EVERY worker that overruns an apply task is signalled in that same
+round - the workers signalled are exactly those, in worker order, for any number of workers - and the handler goes on. -/
+theorem round_signals_every_apply_overrun (cfg : Cfg) (c : List Job) (ws : List Wk)
+    (hn : nothingToCheck cfg c = false)
+    (hp : ∀ wk ∈ ws, poolOverrun cfg c wk = false)
+    (hd : (ws.map (·.working)).Pairwise (· ≠ ·)) :
+    (round cfg c ws).killed = Mpire.Proofs.TimeoutScan.expected cfg c 0 ws ∧ (round cfg c ws).returned = false ∧
+    (round cfg c ws).exc = none := by
+  unfold round
+  simp only [hn, Bool.false_eq_true, ↓reduceIte]
+  have := Mpire.Proofs.TimeoutScan.go_apply_only cfg ws 0 { cache := c } rfl hp hd
+  simpa using this
+
+/-- "Only if": a worker is signalled only when what it works on has a time limit that has expired (and then exactly
+that worker, once). -/
+theorem signalled_only_when_overrun (cfg : Cfg) (acc : Acc) (w : Nat) (wk : Wk)
+    (h : overrun cfg acc.cache wk = false) : visit cfg acc w wk = acc :=
+  Mpire.Proofs.TimeoutScan.visit_quiet cfg acc w wk h
+
+/-- An apply task that overruns: that worker is signalled, that job is failed and leaves the cache, nothing else
+changes and the round goes on. -/
+theorem apply_overrun_fails_only_that_task (cfg : Cfg) (acc : Acc) (w : Nat) (wk : Wk) (hr : acc.returned = false)
+    (h : applyOverrun cfg acc.cache wk = true) :
+    ∃ j, wk.working = .job j ∧
+      visit cfg acc w wk = { acc with killed := acc.killed ++ [w], failed := acc.failed ++ [(.job j, w)],
+                                      cache := acc.cache.filter (fun x => x.id != j) } :=
+  Mpire.Proofs.TimeoutScan.visit_apply cfg acc w wk hr h
+
+/-- A map-family task, worker_init or worker_exit that overruns: the exception is flagged under that job, the worker is
+signalled, the job is failed and the handler ends (the call is torn down by its caller). -/
+theorem pool_overrun_ends_the_call (cfg : Cfg) (acc : Acc) (w : Nat) (wk : Wk) (hr : acc.returned = false)
+    (h : poolOverrun cfg acc.cache wk = true) :
+    (visit cfg acc w wk).returned = true ∧ (visit cfg acc w wk).exc = some wk.working ∧
+    (visit cfg acc w wk).killed = acc.killed ++ [w] ∧ (wk.working, w) ∈ (visit cfg acc w wk).failed :=
+  Mpire.Proofs.TimeoutScan.visit_pool cfg acc w wk hr h
+
+/-- Without any time limit a round does nothing. -/
+theorem no_limits_no_action (cfg : Cfg) (c : List Job) (ws : List Wk) (h : nothingToCheck cfg c = true) :
+    round cfg c ws = { cache := c } := by
+  unfold round; simp [h]
+
+-- non-vacuity: three workers overrun their apply tasks (limit 3, started at 1, now 10), a fourth does not
+example : (round { now := 10, initTimeout := none, exitTimeout := none }
+    [⟨1, false, some 3⟩, ⟨2, false, some 3⟩, ⟨3, false, some 3⟩, ⟨4, false, some 30⟩]
+    [⟨.job 1, none, some 1, none⟩, ⟨.job 2, none, some 1, none⟩, ⟨.job 4, none, some 1, none⟩, ⟨.job 3, none, some 1, none⟩]).killed
+    = [0, 1, 3] := by decide
+
+end Round
 
 end Mpire.C08
